@@ -1,4 +1,49 @@
-From Mage Require Import Base.Strs Model.Deps.
-Example C01_smoke : changeExit 0 3 = 3%Z.
-Proof. reflexivity. Qed.
-Print Assumptions C01_smoke.
+(* C01 - a dependency's body runs exactly once per mage execution.
+   Statements only; proofs in Proof/Deps_c01.v.  [reach fixed p s tr] ranges over EVERY program p
+   (any graph, fan-in, repeated mentions, call styles), EVERY schedule (list of actions) and every
+   prefix of every execution.  fixed = true is the current tree. *)
+From Mage Require Import Base.Strs Model.Deps Proof.Deps_defs Proof.Deps_c01.
+
+Theorem C01_at_most_once : forall fixed p s tr k,
+  reach fixed p s tr -> nstart k tr <= 1.
+Proof. exact at_most_once. Qed.
+Print Assumptions C01_at_most_once.
+
+Theorem C01_started_iff : forall fixed p s tr k,
+  reach fixed p s tr -> (nstart k tr = 1 <-> cells s k <> NotStarted).
+Proof. exact started_iff. Qed.
+Print Assumptions C01_started_iff.
+
+(* exactly once if an executed call names it (gets to it, for the serial forms) *)
+Theorem C01_named_runs : forall p s tr t pc c k,
+  reach true p s tr -> final s ->
+  In (CallEnter t pc) tr -> nth_error (calls_of p t) pc = Some c -> reached_by tr c k ->
+  nstart k tr = 1 /\ nend k tr = 1.
+Proof. exact named_runs. Qed.
+Print Assumptions C01_named_runs.
+
+(* ... and never otherwise *)
+Theorem C01_unnamed_never_runs : forall fixed p s tr k,
+  reach fixed p s tr -> nstart k tr = 1 ->
+  exists t pc c, In (CallEnter t pc) tr /\ nth_error (calls_of p t) pc = Some c /\ In k (c_deps c).
+Proof. exact unnamed_never_runs. Qed.
+Print Assumptions C01_unnamed_never_runs.
+
+(* two different keys are never treated as the same dependency: starting one leaves the other's cell alone *)
+Theorem C01_distinct_keys : forall fixed p s a s' ev k1 k2 cx,
+  step fixed p s a = Some (s', ev) -> In (BodyStart k1 cx) ev -> k2 <> k1 -> cells s' k2 = cells s k2.
+Proof. exact distinct_keys. Qed.
+Print Assumptions C01_distinct_keys.
+
+(* 'Running dependency: <name>' appears once per executed dependency of that name with -v, never without *)
+Theorem C01_log_once : forall fixed p s tr n,
+  reach fixed p s tr -> nlog n tr = if verbose p then nstart_named p n tr else 0.
+Proof. exact log_once. Qed.
+Print Assumptions C01_log_once.
+
+(* non-vacuity: a program with fan-in 3 on one key, run to a final configuration *)
+Example C01_nonvacuous : exists p acts s tr,
+  run true p (init p) acts = Some (s, tr) /\ reach true p s tr /\ final s /\ nstart 0 tr = 1 /\
+  length (filter (fun e => match e with CallEnter _ _ => true | _ => false end) tr) >= 3.
+Proof. exact nonvacuous_c01. Qed.
+Print Assumptions C01_nonvacuous.
